@@ -143,18 +143,22 @@ def log2f(q):
 # ---------------------------------------------------------------------------------------
 # verdicts
 # ---------------------------------------------------------------------------------------
-def decide_exact(v, V, p, logtol=10):
+def decide_exact(v, V, p, logtol=10, rel=False):
     """v, V exact (Fraction or (re, im)).  Returns (verdict, log2 of err in units of 2^-p*max(1,|V|)).
     held  iff |v-V| <= 2^(logtol-p) * max(1,|V|)   (decided exactly on squares for complex values)."""
     if isinstance(v, tuple) or isinstance(V, tuple):
         v, V = cfr(v), cfr(V)
         e2 = cabs2(csub(v, V))
-        s2 = max(Fraction(1), cabs2(V))
+        s2 = cabs2(V) if rel else max(Fraction(1), cabs2(V))
+        if s2 == 0:
+            return ('held' if e2 == 0 else 'violated'), (float('inf') if e2 else float('-inf'))
         T2 = Fraction(4) ** (logtol - p) * s2
         units = 0.5 * (log2f(e2) - log2f(s2)) + p if e2 else float('-inf')
         return ('held' if e2 <= T2 else 'violated'), units
     e = abs(v - V)
-    s = max(Fraction(1), abs(V))
+    s = abs(V) if rel else max(Fraction(1), abs(V))
+    if s == 0:
+        return ('held' if e == 0 else 'violated'), (float('inf') if e else float('-inf'))
     T = Fraction(2) ** (logtol - p) * s
     units = log2f(e) - log2f(s) + p if e else float('-inf')
     return ('held' if e <= T else 'violated'), units
@@ -201,7 +205,7 @@ class RefOracle(object):
         return out
 
 
-def decide_ref(v, V, p, logtol=10, guard=30):
+def decide_ref(v, V, p, logtol=10, guard=30, rel=False):
     """v: tree value (mpf/mpc) or exact Fraction/(re,im); V reference number accurate to 2^-(p+60)*max(1,|V|).
     -> (verdict, log2 err units)"""
     from vf import refmodel
@@ -218,7 +222,9 @@ def decide_ref(v, V, p, logtol=10, guard=30):
         else:
             vr = rq(rmp, v)
         e = abs(vr - V)
-        s = max(1, abs(V))
+        s = abs(V) if rel else max(1, abs(V))
+        if s == 0:
+            return 'undecided', float('nan')
         T = rmp.ldexp(s, logtol - p)
         g = rmp.ldexp(s, -(p + guard))
         units = float(rmp.log(e / s, 2)) + p if e else float('-inf')
@@ -231,7 +237,7 @@ def decide_ref(v, V, p, logtol=10, guard=30):
         rmp.prec = old
 
 
-def decide(v, oracle, p, logtol=10):
+def decide(v, oracle, p, logtol=10, rel=False):
     """oracle: Fraction / (re,im) tuple (exact) or RefOracle.  -> (verdict, units, tier, expected-for-report)"""
     if isinstance(oracle, RefOracle):
         V, why = oracle.value(p)
@@ -239,13 +245,13 @@ def decide(v, oracle, p, logtol=10):
             return 'undecided:' + why, None, TIER_REF, None
         if not (hasattr(v, '_mpf_') or hasattr(v, '_mpc_') or isinstance(v, (tuple, Fraction, int))):
             return 'violated', float('inf'), TIER_REF, _short(V)
-        verdict, units = decide_ref(v, V, p, logtol)
+        verdict, units = decide_ref(v, V, p, logtol, rel=rel)
         return verdict, units, TIER_REF, _short(V)
     try:
         vv = cfr(v) if isinstance(oracle, tuple) else (fr(v) if not hasattr(v, '_mpc_') else cfr(v))
     except (ValueError, TypeError):
         return 'violated', float('inf'), TIER_EXACT, _shortq(oracle)
-    verdict, units = decide_exact(vv, oracle, p, logtol)
+    verdict, units = decide_exact(vv, oracle, p, logtol, rel=rel)
     return verdict, units, TIER_EXACT, _shortq(oracle)
 
 
